@@ -95,7 +95,7 @@ def pick_angle(rng, profile):
     return rng.uniform(1.0, 179.0)
 
 
-def gen_path(rng, mj, closed, kinds='mixed', nseg=None, singular=False, profile='std'):
+def gen_path(rng, mj, closed, kinds='mixed', nseg=None, singular=False, profile='std', origin=0j):
     """heading walk: every joint is either exactly smooth or has a corner angle
     in [0.005,179.99] degrees (shallow corners and near-reversals included);
     profile 'threshold' straddles the code's own classification thresholds;
@@ -105,7 +105,7 @@ def gen_path(rng, mj, closed, kinds='mixed', nseg=None, singular=False, profile=
     if closed and n < 3:
         n = 3
     for attempt in range(200):
-        p = complex(rng.uniform(-50, 50), rng.uniform(-50, 50))
+        p = origin + complex(rng.uniform(-50, 50), rng.uniform(-50, 50))
         if rng.random() < 0.3:
             p = complex(round(p.real), round(p.imag))
         h = cmath.exp(1j * rng.uniform(0, 2 * math.pi))
@@ -229,6 +229,76 @@ def gen_params(rng):
     else:
         tight = rng.uniform(0.02, 1.98)
     return mj, tight
+
+
+def gen_near_closed(rng, mj):
+    """an OPEN path that nearly closes: a closed path whose last end point is
+    moved off the start by a gap of 1e-9 .. 1e-3 relative to the coordinates
+    (near the origin: absolute), near and far from the origin; the phantom
+    closing joint is a corner or smooth"""
+    from svgpathtools import Line, CubicBezier
+    for attempt in range(100):
+        where = rng.choice(['origin', 'near', 'far', 'farther'])
+        origin = {'origin': 0j, 'near': 0j, 'far': complex(rng.uniform(80, 400), rng.uniform(80, 400)),
+                  'farther': 1e4 * cmath.exp(1j * rng.uniform(0, 2 * math.pi))}[where]
+        kinds = rng.choice(['mixed', 'lines', 'cubics'])
+        segs, _ = gen_path(rng, mj, True, kinds, nseg=rng.choice([3, 3, 4, 5]), origin=origin)
+        if where == 'origin':
+            # start exactly at / very near the origin
+            z0 = segs[0].start - complex(rng.uniform(-1e-3, 1e-3), rng.uniform(-1e-3, 1e-3)) * rng.choice([0, 1])
+            segs = [type(s)(*[pt - z0 for pt in s.bpoints()]) for s in segs]
+            if not all(segs[i].end == segs[i + 1].start for i in range(len(segs) - 1)):
+                continue
+        start = segs[0].start
+        scale = max(1.0, abs(start))
+        gap = scale * 10 ** rng.uniform(-9, -3)
+        delta = gap * cmath.exp(1j * rng.uniform(0, 2 * math.pi))
+        last = segs[-1]
+        if isinstance(last, Line):
+            last = Line(last.start, last.end + delta)
+        else:
+            last = CubicBezier(last.start, last.control1, last.control2 + delta, last.end + delta)
+        segs = segs[:-1] + [last]
+        if segs[-1].end == start:
+            continue
+        real = joint_angles(segs, False)
+        if any(a is None for a in real) or not all((a < 1e-9) or (0.004 <= a <= 179.995) for a in real):
+            continue
+        return segs, real, where, gap / scale
+    raise RuntimeError('generator could not build a nearly closed path')
+
+
+def gen_scurve_path(rng, mj):
+    """a point-symmetric S cubic (P0 + P3 = P1 + P2: point(0.5) is the chord
+    midpoint) or a self-crossing loop cubic, a corner, then a cubic or a line;
+    sizes 12 .. 35 x maxjointsize so that a mis-measured length shows"""
+    from svgpathtools import Line, CubicBezier
+    p = complex(rng.uniform(-50, 50), rng.uniform(-50, 50))
+    d = cmath.exp(1j * rng.uniform(0, 2 * math.pi))
+    L = mj * rng.uniform(12, 35)
+    q = p + L * d
+    shape = rng.choice(['S', 'S', 'loop'])
+    if shape == 'S':
+        w = L * rng.uniform(1.0, 1.4) * rot(d, rng.uniform(60, 85) * rng.choice([-1, 1]))
+        first = CubicBezier(p, p + w, q - w, q)
+    else:
+        n_ = rot(d, 90) * rng.choice([-1, 1])
+        first = CubicBezier(p, p + L * (rng.uniform(1.5, 2.0) * d + rng.uniform(0.5, 1.0) * n_),
+                            q + L * (-rng.uniform(1.5, 2.0) * d + rng.uniform(0.5, 1.0) * n_), q)
+    h = true_tangent(first, True)
+    d0 = rot(h, rng.uniform(20, 150) * rng.choice([-1, 1]))
+    L2 = mj * rng.uniform(3, 30)
+    if rng.random() < 0.7:
+        chord = rot(d0, -rng.uniform(-40, 40))
+        e = q + L2 * chord
+        second = CubicBezier(q, q + 0.35 * L2 * d0, e - 0.35 * L2 * rot(chord, rng.uniform(-40, 40)), e)
+    else:
+        second = Line(q, q + L2 * d0)
+    segs = [first, second]
+    if rng.random() < 0.4:
+        d_in = rot(true_tangent(first, False), rng.uniform(20, 150) * rng.choice([-1, 1]))
+        segs = [Line(p - mj * rng.uniform(3, 30) * d_in, p)] + segs
+    return segs, shape
 
 
 def gen_singular_joint(rng, mj):
@@ -589,15 +659,32 @@ def deser_path(data):
     return out
 
 
-def run_path_case(segs, closed, mj, tight):
-    """runs smoothed_path on a fresh copy; returns dict with everything observed"""
+def arclen_ref(bp, n=16384):
+    """independent arc length of a cubic: chord sum over n pieces (relative error ~1e-7)"""
+    import numpy as np
+    from svgpathtools import CubicBezier
+    pts = CubicBezier(*bp).poly()(np.linspace(0, 1, n + 1))
+    return float(np.sum(np.abs(np.diff(pts))))
+
+
+def run_path_case(segs, closed, mj, tight, noscipy=False):
+    """runs smoothed_path on a fresh copy; returns dict with everything observed.
+    noscipy: the configuration in which scipy.integrate.quad is unavailable
+    (CubicBezier.length falls back to the recursive segment_length)"""
     from svgpathtools import Path
     from svgpathtools.smoothing import smoothed_path
+    import svgpathtools.path as P
     fresh = [copy_seg(s) for s in segs]
     path = Path(*fresh)
-    with Recorder() as rec, warnings.catch_warnings():
-        warnings.simplefilter('ignore')
-        out, exc, dt = guarded(lambda: smoothed_path(path, maxjointsize=mj, tightness=tight))
+    old = P._quad_available
+    try:
+        if noscipy:
+            P._quad_available = False
+        with Recorder() as rec, warnings.catch_warnings():
+            warnings.simplefilter('ignore')
+            out, exc, dt = guarded(lambda: smoothed_path(path, maxjointsize=mj, tightness=tight))
+    finally:
+        P._quad_available = old
     return {'out': out, 'exc': exc, 'dt': dt, 'lens': rec.lens, 'ils': rec.ils, 'uts': rec.uts}
 
 
@@ -616,6 +703,9 @@ def run(rep, tier, seed, replay=None):
         n_singj = 16 if quick else 120
         n_shallow = 48 if quick else 400
         n_thresh = 24 if quick else 200
+        n_nearclosed = 30 if quick else 250
+        n_nos_s = 5 if quick else 30          # no-scipy: S / loop cubic next to a corner (slow: ~5 s each)
+        n_nos = 10 if quick else 60           # no-scipy: ordinary short paths
         if info['agree_failed']:
             n_paths *= 2
         dist, kinds_count, ang_hist = {}, {}, [0] * 18
@@ -639,6 +729,8 @@ def run(rep, tier, seed, replay=None):
             r = json.load(open(replay))['replay']
             todo.append((deser_path(r['path']), bool(r.get('closed')), float.fromhex(r['maxjointsize']),
                          float.fromhex(r['tightness']), 'replay'))
+            if r.get('noscipy'):
+                todo[-1] = todo[-1][:4] + ('noscipy-replay',)
             n_joints = n_sing = n_singj = 0
             sing_joints = []
         else:
@@ -672,6 +764,26 @@ def run(rep, tier, seed, replay=None):
                 kinds = ['mixed', 'lines', 'cubics'][i % 3]
                 segs, _ = gen_path(rng, mj, closed, kinds, nseg=rng.choice([2, 3, 4]), profile='threshold')
                 todo.append((segs, closed, mj, tight, 'threshold'))
+            # open paths that nearly close (must be treated as open: exact start == end test)
+            near_stat = {}
+            for i in range(n_nearclosed):
+                mj, tight = gen_params(rng)
+                segs, _, where, relgap = gen_near_closed(rng, mj)
+                k = '%s/gap~1e%d' % (where, int(math.floor(math.log10(relgap))))
+                near_stat[k] = near_stat.get(k, 0) + 1
+                todo.append((segs, False, mj, tight, 'open-nearly-closed'))
+            # the configuration without scipy (segment_length instead of quad)
+            for i in range(n_nos_s):
+                mj = rng.choice([3.0, 3.0, 1.0, 5.0])
+                tight = rng.choice([1.99, rng.uniform(0.02, 1.98)])
+                segs, shape = gen_scurve_path(rng, mj)
+                todo.append((segs, False, mj, tight, 'noscipy-' + shape + '-cubic-at-corner'))
+            for i in range(n_nos):
+                mj, tight = gen_params(rng)
+                closed = (i % 3 == 0)
+                segs, _ = gen_path(rng, mj, closed, rng.choice(['mixed', 'mixed', 'cubics']),
+                                   nseg=rng.choice([2, 3, 3]))
+                todo.append((segs, closed, mj, tight, 'noscipy-' + ('closed' if closed else 'open')))
             sing_joints = []
             for i in range(n_singj):
                 mj, tight = gen_params(rng)
@@ -703,7 +815,8 @@ def run(rep, tier, seed, replay=None):
                         b = 'near_reversal_179.5-179.99deg'
                     if b:
                         fine[b][kk] = fine[b].get(kk, 0) + 1
-            o = run_path_case(segs, closed, mj, tight)
+            nos = mode.startswith('noscipy')
+            o = run_path_case(segs, closed, mj, tight, noscipy=nos)
             t_impl += o['dt']
             evals += 1
             unfix = o['exc'] is not None and 'kinks have been detected' in str(o['exc'])
@@ -713,9 +826,20 @@ def run(rep, tier, seed, replay=None):
             bad = check_output(segs, closed, real, mj, o['out'], o['exc'], o['dt'],
                                lib_tol=(mode == 'threshold')) if judged else []
             evals += 7
+            # sample of the length-oracle contract: what CubicBezier.length() answered is the arc length
+            for bp, v in o['lens']:
+                evals += 1
+                if min(abs(bp[1] - bp[0]), abs(bp[3] - bp[2])) > 1e-9 * (1 + abs(bp[0])):
+                    ref = arclen_ref(bp)
+                    if abs(v - ref) > 1e-4 * ref + 1e-9:
+                        bad.append(('length-oracle-wrong',
+                                    'CubicBezier%r.length() = %.9g during smoothed_path, arc length is %.9g%s' % (
+                                        tuple(bp), v, ref, ' (no-scipy configuration)' if nos else '')))
+                        break
             for key, msg in bad:
                 report(msg, key, segs, closed, mj, tight,
-                       {'output': repr(o['out'])[:1500], 'joint_angles_deg': real})
+                       {'output': repr(o['out'])[:1500], 'joint_angles_deg': real, 'noscipy': nos,
+                        'config': 'svgpathtools.path._quad_available = False' if nos else 'default'})
             if any(a is not None and a >= 1e-9 for a in real):
                 nontrivial.add((tuple(tuple(s.bpoints()) for s in segs), mj, tight))
             if ((o['exc'] is None and isinstance(o['out'], Path)) or unfix) and mode != 'singular-S-type':
@@ -840,6 +964,8 @@ def run(rep, tier, seed, replay=None):
         rep.cov['samples'] = [{'path': repr(m[0])[:300], 'closed': m[1], 'maxjointsize': m[2], 'tightness': m[3],
                                'n_out': (len(m[4]['out']) if m[4]['out'] is not None else None)} for m in pmeta[:3]]
         rep.cov['input_distribution']['fine_angle_joints(kind of seg0,seg1)'] = fine
+        if not replay:
+            rep.cov['input_distribution']['open_nearly_closed(where/relative gap)'] = near_stat
         rep.cov['impl_seconds'] = round(t_impl, 1)
         rep.cov['singular_unit_tangent_oracle'] = sing_stat
         if info['agree_failed'] and not rep.violations:
